@@ -26,6 +26,18 @@ var valueSemProgs = []valueSemProg{
 	{"variadic-rest-fresh", `f := func(a, ...r) { return r }; p := f(1, 2, 3); q := f(1, 2, 3); p[0] = 9; return [p, q]`, `[[9, 3], [2, 3]]`},
 	{"map-literal-fresh", `f := func() { return {k: [1]} }; p := f(); q := f(); p.k[0] = 9; return [p, q]`, `[{"k": [9]}, {"k": [1]}]`},
 	{"array-literal-fresh", `f := func() { return [1, [2]] }; p := f(); q := f(); p[1][0] = 9; p[0] = 8; return [p, q]`, `[[8, [9]], [1, [2]]]`},
+	// constants: `const y = x` takes the x that is in scope at that place (a parameter, local or loop
+	// variable shadows an outer literal constant), and iota
+	{"const-alias-param-shadows", `const x = 42; f := func(x) { const y = x; return y }; return [f(1), x]`, `[1, 42]`},
+	{"const-alias-local-shadows", `const x = 10; g := func() { x := 6; const y = x; return y }; return [g(), x]`, `[6, 10]`},
+	{"const-alias-loop-shadows", `const x = "outer"; out := []; for x := 0; x < 3; x++ { const y = x; out = append(out, y) }; return out`, `[0, 1, 2]`},
+	{"const-alias-forin-shadows", `const x = "outer"; out := []; for _, x in [7, 8] { const y = x; out = append(out, y) }; return out`, `[7, 8]`},
+	{"const-alias-block", `const x = 1; out := []; if true { x := 2; const y = x; out = append(out, y) }; const z = x; return [out, z]`, `[[2], 1]`},
+	{"const-alias-chain", `const a = 3; const b = a; f := func() { const c = b; return c + a }; return f()`, `6`},
+	{"const-iota-group", `const (a = iota; b; c = iota * 10; d); return [a, b, c, d]`, `[0, 1, 20, 30]`},
+	// calls after an exception unwound frames that were re-used by discarded self tail calls
+	{"call-after-unwound-discarded-tail", "var f\nf = func(n) {\n if n == 0 { throw \"x\" }\n f(n - 1)\n}\ng := func() { return 42 }\nr := \"none\"\ntry { f(2) } catch e { r = \"done\" }\nreturn [r, g(), g()]", `["done", 42, 42]`},
+	{"call-after-unwound-discarded-tail-nested", "var f\nf = func(n) {\n if n == 0 { throw \"x\" }\n f(n - 1)\n}\nh := func() { try { f(3) } catch e { return \"c\" } }\ng := func(v) { return v * 2 }\nreturn [h(), g(21), h(), g(4)]", `["c", 42, "c", 8]`},
 	{"slice-shares-by-reference", `o := [1, 2, 3]; x := o[1:]; x[0] = 9; return [o, x]`, `[[1, 9, 3], [9, 3]]`},
 }
 
